@@ -4,6 +4,7 @@ import DimodProofs.CqmHistory2
 import DimodProofs.CqmHistory3
 import DimodProofs.CqmHistory4
 import DimodProofs.CqmHistory5
+import DimodProofs.CqmOnehotTable
 
 /-! # C05 — a CQM keeps every expression attached to the right variables
 
@@ -917,6 +918,18 @@ theorem overlap_test_is_label_level (pre : List Cqm.Op) (hpre : ∀ op ∈ pre, 
       by_cases hd : m.inDiscrete g = true
       · rw [if_pos hd]; intro _; rfl
       · rw [if_neg hd]; intro h; exact absurd rfl h
+
+/-- **The mark-clearing rule is the source's.**  The tests of `Constraint::is_onehot` (constraint.h: every `if (<test>) return
+    false;` in source order and the final `return`) and the statements of the Python `ConstrainedQuadraticModel.flip_variable`
+    (constrained.py) are EXTRACTED on every run into `Generated/OnehotTable.lean` (`harness/translators/c05_onehot.py`).  Read as
+    "the first test that fires returns false", the extracted list IS the model's `Cons.isOnehot` for every constraint and variable
+    table (an unrecognised, dropped, added or altered test breaks this theorem); the Python statement list is the one the model's
+    BINARY branch follows: the substitution FIRST, then for every label that `is_discrete()` at that moment, the mark goes if the
+    constraint mentions `v` (`flip_variable_is_a_function` is stated about exactly that). -/
+theorem generated_onehot_is_the_model (vt : List VT4) (c : Cons) :
+    OnehotTab.onehotBy Generated.OnehotTable.finalReturn vt c Generated.OnehotTable.rejects = some (c.isOnehot vt)
+    ∧ Generated.OnehotTable.flipPython = OnehotTab.flipPythonModelled :=
+  ⟨OnehotTab.onehotBy_generated vt c, OnehotTab.flipPython_generated⟩
 
 /-- not vacuous, both outcomes of the BINARY branch on `demo` + a discrete constraint `d` over x, y: the first flip of `x`
     makes `d` no longer one-hot, so `is_discrete()` is False when the marks are examined and the mark STAYS; the second flip
